@@ -82,14 +82,22 @@ CHECKS = {
     ),
     "C10": (
         "fault_enumeration",
-        "exhaustive codec sweep with fd-identity oracle on the real ScmSocket",
-        "DESIGN.md section 3 C10 (monitor A)",
-        "send_listeners/receive_listeners over a socketpair with real listening sockets: every listener count 0..=201 "
-        "(+253, 254) x 5 address-length classes x 6 protocol mixes; received (address, fd) tables must equal the sent "
-        "ones, each fd must be the same socket (fstat) bound to the listed address, no fd may leak, counts above the "
-        "documented limit must fail cleanly. This sub-space is enumerated completely. Hand-over under traffic "
-        "(monitors B/C) is not part of this check yet.",
-        "Trusted: /proc/self/fd census; full 8-group IPv6 addresses cannot be bound in the sandbox (v4-mapped form used).",
+        "exhaustive fd hand-off codec sweep + hand-over/soft-stop scenarios under traffic with event-log oracles (in-thread workers; real binary in thorough)",
+        "DESIGN.md section 3 C10",
+        "(A) send_listeners/receive_listeners over a socketpair with real listening sockets: every listener count 0..=201 "
+        "(+253, 254) x 5 address-length classes x 6 protocol mixes, fd identity (fstat), bound address, no fd leak, clean "
+        "failure above the limit - enumerated completely. (B) 400 scenarios per quick run on in-thread workers with the "
+        "harness as main process: hand-over as the e2e does it and as the real main process does it, plain soft stop, old "
+        "worker dying before the answer / after the descriptors are out / during soft stop; 1..16 listeners (200 "
+        "thorough) incl. public_address != bound address; a connecting client fleet plus a burst while nobody accepts; "
+        "requests parked in 9 phases (before headers, mid upload, mid download, idle keep-alive, H2 with open streams, "
+        "100-continue, 103 early hints, WebSocket, TCP pipe). Oracles: no connect() refused or reset, manifest == bound "
+        "addresses, every listener served by the successor, in-flight requests complete intact, exactly one soft-stop "
+        "ack, no accept after it, exit (hook event log), no exit with a request in flight. (C, thorough) the real sozu "
+        "binary: UpgradeWorker over the command socket with SIGKILL crash points and a /proc census of LISTEN sockets.",
+        "Trusted: /proc/self/fd and /proc/net/tcp censuses; TCP relays and WebSocket tunnels cut at soft stop are not "
+        "'requests in flight' and are counted as exempt; time-bound verdicts count only when they reproduce in an isolated "
+        "re-run; a main-process crash mid-upgrade is not exercised.",
     ),
     "C11": (
         "exploration",
